@@ -50,6 +50,7 @@ theorem measure_decreases {cfg : Cfg} {s s' : State} {l : Label} (h1 : Inv1 cfg 
   | ctxExpire => cases hl
   | tick d => cases hl
   | close => cases hl
+  | bgEnds => cases hl
   | prodCancelled =>
     unfold_step at h <;> (repeat' split at h) <;> cases h <;> close_meas
   | prodSend =>
@@ -90,8 +91,8 @@ theorem quiescent_closed {cfg : Cfg} {s : State} (h3 : Inv3 cfg s)
     (hq : Quiescent good cfg s) : s.ppc = .done ∧ s.bpc = .done ∧ s.closeReturned = true := by
   have hp : s.ppc = .done := by
     cases hp : s.ppc with
-    | next => have := hq .prodCancelled rfl; simp [step, hp, hc] at this
-    | send v => have := hq .prodSendCancel rfl; simp [step, hp, hc, good] at this
+    | next => have := hq .prodCancelled rfl; simp [step, hp, hc, good, bgDone, Code.bgMayEnd] at this
+    | send v => have := hq .prodSendCancel rfl; simp [step, hp, hc, good, bgDone, Code.bgMayEnd] at this
     | closeC => have := hq .prodCloseC rfl; simp [step, hp] at this
     | closeSrc => have := hq .prodCloseSrc rfl; simp [step, hp] at this
     | done => rfl
@@ -107,7 +108,7 @@ theorem quiescent_closed {cfg : Cfg} {s : State} (h3 : Inv3 cfg s)
       have := hq (.fullRet b) rfl
       simp only [step, hb, hb', and_self, if_true] at this
       split at this <;> cases this
-    | flush r => have := hq .flushAbort rfl; simp [step, hb, hc, good] at this
+    | flush r => have := hq .flushAbort rfl; simp [step, hb, hc, good, bgDone, Code.bgMayEnd] at this
     | exit => have := hq .batchExit rfl; simp [step, hb] at this
     | done => rfl
   refine ⟨hp, hb, ?_⟩
